@@ -258,11 +258,12 @@ impl Property for C06 {
             std::fs::write(&inp, &case.input).expect("write input");
             let mut args = cfg.cli_args();
             args.push(inp.to_string_lossy().to_string());
-            let mut outs: Vec<(Option<i32>, Vec<u8>)> = Vec::new();
+            // (what the command prints for a failed transform is "the error" of this front-end: compared as well)
+            let mut outs: Vec<(Option<i32>, Vec<u8>, Vec<u8>)> = Vec::new();
             for _ in 0..m {
                 let r = run_cli(&args, None, &dir, 30.0);
                 runs += 1;
-                outs.push((r.code, r.stdout));
+                outs.push((r.code, r.stdout, r.stderr));
             }
             if pp.failures.len() >= 3 {
                 break;
@@ -270,7 +271,7 @@ impl Property for C06 {
             if outs.iter().any(|o| *o != outs[0]) {
                 pp.failures.push((
                     "c06:fresh-process-differs".into(),
-                    format!("{m} fresh svgdx processes gave different stdout/exit status for the same input and flags {:?}\n--- input ---\n{}", cfg.cli_args(), case.input),
+                    format!("{m} fresh svgdx processes gave different stdout / stderr / exit status for the same input and flags {:?}\n--- input ---\n{}", cfg.cli_args(), case.input),
                     json!({"input": case.input, "cfg": cfg}),
                 ));
             }
